@@ -29,7 +29,8 @@ PID = 'C02'
 LEAN_MODULES = ['ThermoVerif.Props.C02']
 RULE = ('cases of 1–5 inlets (single-phase l/g streams, two-phase MultiStreams, empty streams, Heat/Power objects, None), '
         'T 250–500 K, P 1e4–1e7 Pa (log-uniform), 5 chemicals with random flows; receiver fresh / multi-phase / one of the inlets; '
-        'Q = ΔT·ΣC with ΔT ∈ ±40 K, 0, or huge (fallback branches); conserve_phases 10 %; then separate_out of a sub-stream and '
+        'Q = ΔT·ΣC with ΔT ∈ ±40 K, 0, or huge (fallback branches); conserve_phases 10 %; then separate_out of a sub-stream '
+        '(equal shares of {exactly the parent\'s T, another T} x {same phase, opposite phase}; 15 % at another pressure) and '
         'H / h / S assignments with targets between the values at 250 K and 500 K, the current value, the other phase\'s value; '
         'non-trivial = ≥ 2 non-empty inlets at different T, or Q ≠ 0, or an assignment that moves T; distinct = distinct op lists')
 ASSUMPTIONS = [
@@ -247,12 +248,16 @@ def run_ops(ops):
         elif op == 'N':
             objs.append(None)
         elif op == 'sub':
-            # a new stream holding a share of stream a's material (same phase, P), at a.T + dT
+            # a new stream holding a share of stream a's material at a.T + dT (dT = 0.0: exactly a's temperature)
             a = objs[int(t[1])]
             fr = flows(t[2])
             if is_multi(a) or not is_stream(a):
                 objs.append(tmo.Stream(None)); continue
-            b = tmo.Stream(None, T=max(a.T + float(t[3]), 1.0), P=a.P, phase=a.phase)
+            # optional: `other` = the opposite phase (a vapour bleed from a liquid, condensate from a gas); a pressure factor
+            phase = a.phase
+            if len(t) > 4 and t[4] == 'other' and phase in 'lg': phase = 'g' if phase == 'l' else 'l'
+            Pf = float(t[5]) if len(t) > 5 else 1.0
+            b = tmo.Stream(None, T=max(a.T + float(t[3]), 1.0), P=a.P * Pf, phase=phase)
             arr = a.mol.to_array() if hasattr(a.mol, 'to_array') else list(a.mol)
             b.imol.data[:] = [x * f for x, f in zip(arr, fr)]
             objs.append(b)
@@ -334,7 +339,8 @@ def run_ops(ops):
             tol = 1e-6 * max(abs(Ha), abs(Hb)) + 1e-5 * last_slope(rec) + 1e-9
             model_in.append(head + f' ea={1 if a.isempty() else 0} kind=H sol={sol_tokens(rec)}')
             outs.append(answer(a, out, Hread, rec, tol))
-            tags.add('sep' + (':none' if b is None else ':empty-other' if b_empty else ':same' if a is b else ''))
+            tags.add('sep' + (':none' if b is None else ':empty-other' if b_empty else ':same' if a is b else
+                              f':{"sameT" if b.T == Ta else "otherT"}:{"samephase" if ph_of(b) == pha else "otherphase"}'))
             if (b is None or b_empty) and (out != 'ok' or rec or a.T != Ta or a.P != Pa or ph_of(a) != pha):
                 fail('sep:noop', f'separate_out of {"None" if b is None else "an empty stream"} is not a no-op: outcome {out}, '
                                  f'{len(rec)} solver call(s), T {Ta!r} → {a.T!r}, P {Pa!r} → {a.P!r}, phase {pha} → {ph_of(a)}')
@@ -544,8 +550,14 @@ def gen_case(rng):
             a = rng.choice(cand)
             r2 = rng.random()
             if r2 < 0.76:
-                fr = ','.join(r6(rng.uniform(0, 0.9)) if rng.random() < 0.8 else '0.0' for _ in CHEMS)
-                b = add_obj(ops, f'sub {a} {fr} {r6(rng.uniform(-25, 25))}')
+                # the four combinations of {same T exactly, other T} x {same phase, opposite phase} in equal shares:
+                # a bleed at exactly the parent's temperature but in the other phase still carries the latent heat
+                same_T, other_ph = rng.random() < 0.5, rng.random() < 0.5
+                top = 0.15 if other_ph else 0.9
+                fr = ','.join(r6(rng.uniform(0, top)) if rng.random() < 0.8 else '0.0' for _ in CHEMS)
+                dT = '0.0' if same_T else r6(rng.uniform(-25, 25))
+                Pf = r6(rng.choice([0.5, 2.0])) if rng.random() < 0.15 else '1.0'
+                b = add_obj(ops, f'sub {a} {fr} {dT} {"other" if other_ph else "same"} {Pf}')
                 ops.append(f'sep {a} {b}')
             elif r2 < 0.86:
                 ops.append(f'sep {a} {a}')
@@ -591,6 +603,12 @@ def corpus():
         # separate_out of an empty stream (also the empty stream itself) is a no-op: T stays bit for bit, no solve
         Case(['S l 330.0 101325.0 10.0,4.0,0,1.0,0', f'S g 400.0 50000.0 {E}', 'sep 0 1', f'S l 298.15 101325.0 {E}', 'sep 2 2',
               'sep 0 2']),
+        # separate_out of a bleed at exactly the parent's temperature but in the other phase (latent heat leaves), and the
+        # converse combinations (same T same phase, other T other phase)
+        Case(['S l 365.0 101325.0 10.0,2.0,0,0,0', 'sub 0 0.03,0.1,0,0,0 0.0 other 1.0', 'sep 0 1',
+              'S g 400.0 50000.0 10.0,2.0,0,0,0', 'sub 2 0.03,0.05,0,0,0 0.0 other 1.0', 'sep 2 3',
+              'S l 350.0 101325.0 10.0,2.0,0,0,0', 'sub 4 0.1,0.25,0,0,0 0.0 same 1.0', 'sep 4 5',
+              'sub 4 0.03,0.1,0,0,0 15.0 other 1.0', 'sep 4 6']),
         # separate_out: a share, the stream itself, None; empty streams and the zero shortcut
         Case(['S l 330.0 101325.0 10.0,4.0,0,1.0,0', 'sub 0 0.5,0.25,0,0.9,0 12.0', 'sep 0 1', 'sep 0 0', 'N', 'sep 0 2',
               'set 0 H zero 0', 'set 0 H abs 5.0', f'S g 298.15 101325.0 {E}', 'set 3 S abs 5.0']),
